@@ -117,6 +117,8 @@ def run(ctx, rep):
             out = b.get("output", "")
             rep.check("C12.sig", "C12/sig/%s" % what, "'static" not in out, loc=F.short_file(b["sp"]),
                       found="returns %s" % out, expected="no 'static borrow in a query result", nontrivial=False)
+    import cachefmt as CF
+    CF.check_string_table_model(fx, rep, "C12.strtab")
     CR.run_controls(ctx, rep, "C12.census")
     if ctx.tier == "thorough":
         fu = ctx.facts("uuid")
